@@ -6,22 +6,24 @@ set -u
 PHASE="$1"; ID="$2"; shift; shift
 VARS="${*:-A B C}"
 R="${ROUND:-}"
+VH="$(cd "$(dirname "$0")/.." && pwd)"
+LOGSUFFIX="${LOGSUFFIX:-}"
 for V in $VARS; do
-  SRC=/tmp/wt-$ID/out/$V; DST=/verif/seeded/$ID-$V$R
+  SRC=/tmp/wt-$ID/out/$V; DST=$VH/seeded/$ID-$V$R
   if [ "$PHASE" = verify ]; then
     [ -f "$SRC/patch.diff" ] || { echo "$ID-$V: no patch"; continue; }
     mkdir -p "$DST"
     cp "$SRC/patch.diff" "$DST/"; cp "$SRC"/demo.* "$DST/" 2>/dev/null; cp "$SRC/notes.md" "$DST/agent-notes.md" 2>/dev/null
-    /verif/tools/verify_seeded.sh "$ID" "$V" > "$DST/verify.log" 2>&1
+    "$VH/tools/verify_seeded.sh" "$ID" "$V" > "$DST/verify.log" 2>&1
     echo "$ID-$V$R verify: $(tail -1 "$DST/verify.log")"
   else
     [ -f "$DST/patch.diff" ] || continue
     CHECKS="${CHECKS:-$ID}"
     RES=""
     for C in $CHECKS; do
-      /verif/tools/mutant.sh "$DST/patch.diff" "$C" > "$DST/check-$C.log" 2>&1
-      RC=$(grep -o "check rc=[0-9]*" "$DST/check-$C.log" | tail -1 | cut -d= -f2)
-      ORACLES=$(grep -o "^# $C oracle=[a-z_A-Z0-9]*" "$DST/check-$C.log" | sort | uniq -c | awk '{print $4"x"$1}' | tr '\n' ' ')
+      "$VH/tools/mutant.sh" "$DST/patch.diff" "$C" > "$DST/check-$C$LOGSUFFIX.log" 2>&1
+      RC=$(grep -o "check rc=[0-9]*" "$DST/check-$C$LOGSUFFIX.log" | tail -1 | cut -d= -f2)
+      ORACLES=$(grep -o "^# $C oracle=[a-z_A-Z0-9]*" "$DST/check-$C$LOGSUFFIX.log" | sort | uniq -c | awk '{print $4"x"$1}' | tr '\n' ' ')
       echo "$ID-$V$R check $C rc=$RC $ORACLES"
       RES="$RES{\"check\":\"$C\",\"exit\":${RC:-2},\"oracles\":\"$ORACLES\"},"
     done
